@@ -4066,6 +4066,12 @@ func (s *BgpServer) sendNotification(op, addr string, subcode uint8, data []byte
 	if err == nil {
 		m := bgp.NewBGPNotificationMessage(bgp.BGP_ERROR_CEASE, subcode, data)
 		for _, peer := range peers {
+			// The notification is consumed by the Established state only. Queued
+			// for a peer without a session it would sit in the channel and tear
+			// down whatever session comes up next, however much later.
+			if peer.State() != bgp.BGP_FSM_ESTABLISHED {
+				continue
+			}
 			peer.sendNotification(m)
 		}
 	}
